@@ -198,6 +198,8 @@ func (e *Engine) verifyFunction(c *Contract, init *State, caseBits int) (res *Fu
 				e.modLocs = append(e.modLocs, modLoc{loc: mt.loc})
 			case "map":
 				e.modLocs = append(e.modLocs, modLoc{obj: mt.loc})
+			case "elems":
+				e.modLocs = append(e.modLocs, modLoc{obj: LocObj(mt.loc)})
 			}
 		}
 	}
@@ -205,12 +207,27 @@ func (e *Engine) verifyFunction(c *Contract, init *State, caseBits int) (res *Fu
 	if len(c.captures) > 0 {
 		cargs = append(append([]*Term{}, args...), e.captureVals(c, fn, bindings, st)...)
 	}
+	reqTruth := map[int]bool{}
 	for _, cl := range c.Requires {
 		g := e.evalClause(nil, cl, cargs, nil, st, entry, True)
 		e.assume(True, g)
+		// atoms decided by the precondition are folded into the terms built
+		// from here on (they are assumed in every query anyway)
+		for _, a := range conj(g) {
+			v := true
+			for a.Op == "not" {
+				a, v = a.Args[0], !v
+			}
+			if a.Sort == BoolS && !a.IsConst() && a.Op != "forall" && a.Op != "and" && a.Op != "or" && !a.hasBound {
+				reqTruth[a.id] = v
+			}
+		}
+	}
+	if len(reqTruth) > 0 && caseBits < 0 {
+		caseTruth = reqTruth
 	}
 	if caseBits >= 0 {
-		truth := map[int]bool{}
+		truth := reqTruth
 		var lits []*Term
 		for i, cl := range c.Cases {
 			if i >= 8 {
